@@ -367,7 +367,7 @@ class ExecMixin:
                     def k2(s1):
                         cur = s1.locals.get(name)
                         if cur is not None and cur.ty is None:
-                            s1.locals[name] = self.typed(s1, cur.t, alts[0])
+                            self.hint_if_forced(s1, name, alts[0])
                         return k(s1)
                     return k2
                 if isinstance(e.ops[0], ast.IsNot):
@@ -385,9 +385,20 @@ class ExecMixin:
                 def kt(s1, kt0=kt0):
                     cur = s1.locals.get(name)
                     if cur is not None and cur.ty is None:
-                        s1.locals[name] = self.typed(s1, cur.t, alts[0])
+                        self.hint_if_forced(s1, name, alts[0])
                     return kt0(s1)
         return self.ev(e, st, lambda st1, v: self.branch(st1, self.truthy(st1, v), kt, kf))
+
+    def hint_if_forced(self, st, name, ty):
+        """static hint for a local, only when the path condition already forces that type (no new assumption)."""
+        cur = st.locals[name]
+        ts = TypeSpec(ty)
+        fact = self.type_fact(cur.t, ts)
+        if not self.feasible(st, z3.Not(fact)):
+            sv = SV(cur.t, ts.single, cur.meta)
+            if ts.elem is not None:
+                sv.meta = ("elemtype", ts.elem)
+            st.locals[name] = sv
 
     def loop_spec(self, node):
         k = self.loops.get((node.lineno, node.col_offset))
